@@ -1037,7 +1037,33 @@ func c16RankingOracle(in c16RankIn) []V {
 			}
 		}
 		if !base {
-			continue // custom-coin values need the bancor formula (C12); the slot model below is for base-coin entries
+			// custom-coin values need the bancor formula (C12) to be ranked; what needs no price: every
+			// entry is afterwards either in a slot or on the wait list, with its full value in its coin
+			if pc != nil {
+				for k, e := range ent {
+					after := new(big.Int)
+					for _, st := range pc.Stakes {
+						if st.Owner == k.Owner && st.Coin == k.Coin {
+							after.Add(after, obs.Num(st.Value))
+						}
+					}
+					dw := new(big.Int)
+					for _, w := range in.post.Waitlist {
+						if w.CandidateID == c.ID && w.Owner == k.Owner && w.Coin == k.Coin {
+							dw.Add(dw, obs.Num(w.Value))
+						}
+					}
+					for _, w := range in.pre.Waitlist {
+						if w.CandidateID == c.ID && w.Owner == k.Owner && w.Coin == k.Coin {
+							dw.Sub(dw, obs.Num(w.Value))
+						}
+					}
+					if got := new(big.Int).Add(after, dw); got.Cmp(e.value) != 0 {
+						out = append(out, V{Signature: in.prefix + "slot-rule|entry-value-not-kept|custom-coin-candidate", Detail: fmt.Sprintf("update at height %d, candidate %d: %s held %s of coin %d (stake + pending + matured moves); afterwards slot %s + wait-list growth %s", in.height, c.ID, k.Owner.String(), e.value, k.Coin, after, dw)})
+					}
+				}
+			}
+			continue
 		}
 		out = append(out, c16SlotRule(in, c, pc, ent)...)
 	}
